@@ -357,6 +357,8 @@ func runC18(c *Ctx) {
 	}
 	c12VisitClosures(c)
 	c12NameRecorded(c, "flag-name-recorded")
+	c.rule("file-manglers-per-call", "the mangler list wrapped around the config file's decoder is built by the call that uses it (no package-level base slice whose spare capacity later calls write into)", 1)
+	c18FileManglersPerCall(c, "file-manglers-per-call")
 	c13Body(c)
 	c18ParamsReachDecoder(c)
 
@@ -525,5 +527,78 @@ func c18ParamsReachDecoder(c *Ctx) {
 	}
 	if bad == 0 {
 		c.ok("params-reach-decoder", "ez", 0, "none of the %d entry points that take Params goes through the params-less decoder table", n)
+	}
+}
+
+// c18FileManglersPerCall: the mangler list wrapped around the file decoder is built by the call that uses it: every
+// append that contributes to it starts from a slice made (or a literal, or nil) in the same function - after folding,
+// the ez entry point itself. A package-level base slice with spare capacity is shared by all ez calls of the
+// process: a later call overwrites the optional manglers of an earlier call's (still watching) decoder.
+func c18FileManglersPerCall(c *Ctx, rule string) {
+	w := c.W
+	n := 0
+	for _, f := range w.funcsIn("ez") {
+		for _, i := range allInstrs(f) {
+			ci, ok := i.(*ssa.Call)
+			if !ok || calleeFullName(ci) != modPath+"/sourcewrap.NewTransformingDecoder" || len(ci.Call.Args) < 2 {
+				continue
+			}
+			n++
+			c.analysed(relName(f))
+			bad := ""
+			seen := map[ssa.Value]bool{}
+			var walk func(v ssa.Value, depth int)
+			walk = func(v ssa.Value, depth int) {
+				if seen[v] || bad != "" {
+					return
+				}
+				seen[v] = true
+				if depth > 12 {
+					bad = "the list's origin is too far away to follow"
+					return
+				}
+				switch x := v.(type) {
+				case *ssa.MakeSlice:
+				case *ssa.Const:
+					if !x.IsNil() {
+						bad = "the list starts from " + canon(v)
+					}
+				case *ssa.Slice:
+					if _, isAlloc := x.X.(*ssa.Alloc); !isAlloc {
+						walk(x.X, depth+1) // re-slicing of a list
+					}
+				case *ssa.Phi:
+					for _, e := range x.Edges {
+						walk(e, depth+1)
+					}
+				case *ssa.Call:
+					if calleeFullName(x) == "builtin.append" {
+						walk(x.Call.Args[0], depth+1)
+						return
+					}
+					// a helper of the package that builds and returns the list
+					if h := staticCallee(x); h != nil && len(h.Blocks) > 0 && w.pkgRelOfFn(h) == "ez" {
+						for _, r := range returnsOf(h) {
+							walk(retVals(r)[0], depth+1)
+						}
+						return
+					}
+					bad = "the list is the result of " + calleeFullName(x)
+				case *ssa.UnOp:
+					if g, isG := x.X.(*ssa.Global); isG && x.Op == token.MUL {
+						bad = "the list starts from the package-level variable " + g.Name() + ": its backing array is shared by every call, and an append within its capacity overwrites the elements an earlier call appended"
+						return
+					}
+					bad = "the list starts from " + canon(v)
+				default:
+					bad = "the list starts from " + canon(v)
+				}
+			}
+			walk(ci.Call.Args[1], 0)
+			c.check(bad == "", rule, relName(f)+"#manglers", ci.Pos(), "the mangler list wrapped around the file decoder is built from a slice made in this call", "the mangler list wrapped around the file decoder is not built by this call: "+bad)
+		}
+	}
+	if n == 0 {
+		c.bad(rule, "ez", 0, "no NewTransformingDecoder call found in the ez package")
 	}
 }
